@@ -298,6 +298,9 @@ func osfsExec(c *Ctx, op string) {
 				}
 			}
 		}()
+		if cl := pathpkg.Clean(start); (cl == ".." || strings.HasPrefix(cl, "../")) && res != "err fs-breakout" {
+			c.PropFail("goesup-gate", fmt.Sprintf("ResolveLink(%q) from the starting point %q (cleaned %q, leaves the base) answered %q instead of a breakout error", target, start, cl, res), op)
+		}
 		c.H("resolvelink:" + strings.Fields(res)[0])
 		c.EmitR(op, mop, res)
 	case "op":
@@ -310,7 +313,7 @@ func osfsExec(c *Ctx, op string) {
 		}
 		rel := strings.TrimPrefix(rp.String(), "./")
 		before, _ := Snapshot(outer)
-		follow := name == "stat" || name == "chmod" || name == "readdir" || name == "settimes" || name == "open"
+		follow := name == "stat" || name == "chmod" || name == "readdir" || name == "settimes" || name == "open" || name == "openx"
 		kd, ki, ke := kernelResolve(bfd, rel, follow)
 		var opErr error
 		var got string
@@ -335,9 +338,13 @@ func osfsExec(c *Ctx, op string) {
 						c.PropFail("osfs-escape", "LStat read the target of a symlink outside the base", op)
 					}
 				}
-			case "open":
+			case "open", "openx":
 				var fl fs.File
-				fl, opErr = afs.OpenFile(rp, os.O_RDONLY, 0)
+				flags := os.O_RDONLY
+				if name == "openx" { // O_EXCL without O_CREATE: the kernel ignores it and follows a final symlink
+					flags |= os.O_EXCL
+				}
+				fl, opErr = afs.OpenFile(rp, flags, 0)
 				if opErr == nil {
 					b, _ := io.ReadAll(io.LimitReader(fl, 100))
 					fl.Close()
@@ -391,7 +398,7 @@ func osfsExec(c *Ctx, op string) {
 				}
 			}
 		}
-		if opErr == nil && ke == nil && name == "open" {
+		if opErr == nil && ke == nil && (name == "open" || name == "openx") {
 			// content must be that of the kernel-resolved object
 			for _, e := range after {
 				if e.Kind == 'f' {
@@ -622,7 +629,7 @@ func osfsEngine(c *Ctx) {
 		corpus = append(corpus, chain)
 	}
 	paths := []string{"d/l1", "d/f", "c0", "c10", ".", "a", "b", "d", "d/a", "l1", "l2", "l1/a", "l2/a", "d/l1", "d/l1/a", "sub", "sub/a", "f", "f/x", "nope", "l1/..", "d/sub/a", "l1/l2", "deep/er", "secret"}
-	ops := []string{"stat", "lstat", "open", "mkdir", "chmod", "settimes", "readdir", "readlink"}
+	ops := []string{"stat", "lstat", "open", "openx", "mkdir", "chmod", "settimes", "readdir", "readlink"}
 	for k := 0; k < nTrees+len(corpus); k++ {
 		var ns []osNode
 		if k < len(corpus) {
@@ -641,7 +648,7 @@ func osfsEngine(c *Ctx) {
 		dps := derivedPaths(ns)
 		ps = append(append([]string(nil), ps...), dps...)
 		for _, p := range dps {
-			for _, o := range []string{"open", "stat", "chmod", "readlink"} {
+			for _, o := range []string{"open", "openx", "stat", "chmod", "readlink"} {
 				osfsExec(c, fmt.Sprintf("osfs %s op %s %s", tt, o, hx(p)))
 			}
 		}
@@ -665,6 +672,14 @@ func osfsEngine(c *Ctx) {
 		}
 		for i := 0; i < 4; i++ {
 			osfsExec(c, fmt.Sprintf("osfs %s op %s %s", tt, ops[c.Intn(len(ops))], hx(ps[c.Intn(len(ps))])))
+		}
+		// ResolveLink from starting points that leave the base, with rooted and relative link texts
+		if k < len(corpus) || k%5 == 0 {
+			for _, st := range []string{"..", "../x", "a/../../x", "../../z", "../base2/l"} {
+				for _, tg := range []string{"/", "/a", "//a", "/../a", "a", "../a", ""} {
+					osfsExec(c, fmt.Sprintf("osfs %s resolvelink %s %s", tt, hx(tg), hx(st)))
+				}
+			}
 		}
 		// paths that leave the base, in several spellings, through every operation
 		if k < len(corpus) || k%5 == 0 {
